@@ -234,9 +234,9 @@ def ensemble_step_inside_bounds(h, d, nw):
     ev = mc.Events()
     lo, up = _box(h, d)
     en, s, post, alpha, X = mc.make_ensemble(h, d, nw, ev, bounds=(lo, up), max_attempts=1)
-    h.covers(en.EnsembleSampler._EnsembleSampler__proposal, en.EnsembleSampler._EnsembleSampler__advance_walker)
+    h.covers(*mc.priv(en.EnsembleSampler, "_EnsembleSampler__proposal", "_EnsembleSampler__advance_walker"))
     del ev[:]
-    s._EnsembleSampler__advance_walker(h.choice_int("walker", 0, nw - 1))
+    mc.find_method(s, ("walker",), "the single-walker update")(h.choice_int("walker", 0, nw - 1))
     _all_inside(h, "ensemble", ev, lo, up)
     h.ge("ensemble walkers >= lower", s.walker_positions, lo[None, :])
     h.le("ensemble walkers <= upper", s.walker_positions, up[None, :])
